@@ -1,6 +1,8 @@
 SPECIFICATION Spec
 CONSTANTS
   Emit = TRUE
+  TrustCovers = {"raw"}
 CONSTRAINT EmitTable
 CONSTRAINT EmitConfig
+CONSTRAINT EmitFault
 CHECK_DEADLOCK FALSE
